@@ -267,6 +267,17 @@ def ins_case(item):
         if state["started"] and not state["stopped"]:
             state["stopped"] = True
             win.stop(extra_frames=[sys._getframe(1)])
+        if target == "fin" and not state["started"]:
+            # window over the finalisation, including the forced final checkpoint
+            state["started"] = True
+            state["existed"] = os.path.exists(rf)
+            win.start(extra_frames=[sys._getframe(1)])
+            try:
+                return o_fin(ns, *a, **k)
+            finally:
+                if not state["stopped"]:
+                    state["stopped"] = True
+                    win.stop(extra_frames=[sys._getframe(1)])
         return o_fin(ns, *a, **k)
 
     import nessai.samplers.base as sbase
@@ -274,7 +285,9 @@ def ins_case(item):
     o_dump = sbase.safe_file_dump
 
     def dump(data, filename, *a, **k):
+        state["pending"] = True
         r = o_dump(data, filename, *a, **k)
+        state["pending"] = False
         state["ckpt"] = open(filename, "rb").read()
         state["existed"] = True
         state["ckpt_iteration"] = data.iteration
@@ -327,7 +340,17 @@ def ins_case(item):
     elif exit_code != fs.exit_code:
         errs.append(("exit-code", f"{exit_code} vs configured {fs.exit_code}"))
     now = open(rf, "rb").read() if os.path.exists(rf) else None
-    if now != state["ckpt"]:
+    replaced = False
+    if now != state["ckpt"] and state.get("pending") and now is not None:
+        # the signal arrived inside the final (iteration-boundary) checkpoint write itself, after
+        # the new file was moved into place: the complete new checkpoint is the other legal content
+        try:
+            import pickle as _p
+            _p.loads(now)
+            replaced = True
+        except Exception as e:
+            errs.append(("ins:checkpoint-unreadable-after-signal-during-write", f"{type(e).__name__}: {e}"[:200]))
+    if now != state["ckpt"] and not replaced and not errs:
         errs.append(("ins:iteration-boundary-checkpoint-modified", f"existed before: {state['existed']}, exists now: {now is not None}"))
     runs.reset_globals()
     m2 = make("G2")
@@ -338,7 +361,7 @@ def ins_case(item):
     try:
         with mon.installed():
             fs2 = FlowSampler(m2, output=out, resume=True, **kw2)
-            if state["existed"] and fs2.ns.iteration != state.get("ckpt_iteration", target):
+            if state["existed"] and not replaced and fs2.ns.iteration != state.get("ckpt_iteration", target):
                 errs.append(("ins:resumed-at-wrong-iteration", f"{fs2.ns.iteration} vs {state.get('ckpt_iteration', target)}"))
             fs2.run(plot=False, save=False)
         errs += [(f"resumed:{c}", d) for c, d in mon.errs[:2]]
@@ -353,7 +376,7 @@ def ins_case(item):
 def run(ctx):
     seed = ctx.seed
     std_targets = [5, 21, 23, "fin"] if ctx.quick else [1, 5, 20, 21, 22, 23, 30, 45, "fin"]
-    ins_targets = [1] if ctx.quick else [0, 1, 2]
+    ins_targets = [1, "fin"] if ctx.quick else [0, 1, 2, "fin"]
     # counting runs
     count_items = [("std", (seed, t, None, signal.SIGTERM, False)) for t in std_targets] + [("ins", (seed, t, None, signal.SIGTERM, False)) for t in ins_targets]
     if not ctx.quick:
@@ -390,7 +413,7 @@ def run(ctx):
             ctx.violation(f"{kind}:inconsistent-after-signal@{site}", f"{c}: {d} | signal {int(item[3])} before line [{site}] (iteration {item[1]}, frames {chain})", {"kind": kind, "item": [x if isinstance(x, (bool, str)) or x is None else int(x) for x in item]})
             break
     ctx.set("distinct_nontrivial", len(site_classes))
-    ctx.set("rule", "signal handler invoked before every line event of every nessai frame inside the chosen iterations (loop bodies de-duplicated to first/second/last occurrence of each (function, line)); thorough adds more iterations, opcode-level events in consume_sample / insert_live_point / _NSIntegralState.increment and SIGINT/SIGALRM on a sub-lattice. Distinct/non-trivial: distinct sampler-level statements (site keys) interrupted")
+    ctx.set("rule", "signal handler invoked before every line event of every nessai frame inside the chosen iterations and inside the finalisation of both samplers ('fin': from entry to NestedSampler.finalise / ImportanceNestedSampler.finalise until it returns, including the forced final checkpoint write) (loop bodies de-duplicated to first/second/last occurrence of each (function, line)); thorough adds more iterations, opcode-level events in consume_sample / insert_live_point / _NSIntegralState.increment and SIGINT/SIGALRM on a sub-lattice. Distinct/non-trivial: distinct sampler-level statements (site keys) interrupted")
     ctx.set("bounds", dict(std_iterations=std_targets, ins_iterations=ins_targets, signals=["SIGTERM"] + ([] if ctx.quick else ["SIGINT", "SIGALRM"])))
     ctx.set("exhaustive", True)
     ctx.assume(
